@@ -19,7 +19,7 @@ KeepSet(e) == {r \in 1..Len(e.keep) : e.keep[r] = 1}
 AllItems(bs) == LET RECURSIVE F(_) F(k) == IF k > Len(bs) THEN <<>> ELSE bs[k].items \o F(k + 1) IN F(1)
 
 Verdict(e) ==
-  LET iscmd == e.op \in {"cmd", "count"}
+  LET iscmd == e.op \in {"cmd", "count", "poolstress"}
       inp == IF iscmd THEN <<>> ELSE MkFrom(e.sizes, 0)
       in2 == IF iscmd THEN <<>> ELSE MkFrom(e.sizes2, 100)
       in3 == IF iscmd THEN <<>> ELSE MkFrom(e.sizes3, 200)
@@ -37,6 +37,10 @@ Verdict(e) ==
        IF e.rc # 0 THEN "exit-status"
        ELSE IF [variants |-> e.variants, reads |-> e.reads, symbols |-> e.symbols] = Cmd!Totals(e.files, e.lens, e.counts)
             THEN "ok" ELSE "totals"
+  ELSE IF e.op = "poolstress" THEN
+       (* many streams of one-record batches pooled at once, several rounds: e.w = number of rounds in which the *)
+       (* batch numbers out of Pool were not 0..N-1 each exactly once (the order contract under real timing)     *)
+       IF e.w # 0 THEN "order-contract" ELSE "ok"
   ELSE IF e.op = "pool_workers" THEN
        IF ~OrderContract(out) THEN "order-contract"
        ELSE IF Len(out) # Len(inp) THEN "batch-count"
